@@ -5,3 +5,4 @@ import Proofs.Lemmas.CoreUnfold
 import Proofs.Lemmas.CoreLayout
 import Proofs.Lemmas.CoreRW
 import Proofs.Lemmas.CoreRT
+import Proofs.Lemmas.CoreRS
